@@ -14,6 +14,7 @@ Direct monitors on every execution state the property's own wording (bytes per d
 streams, terminate once, no thread alive, play raises, close returns).
 """
 import os
+import sys
 import struct
 
 import common
@@ -178,10 +179,14 @@ class Execution(object):
         if op[0] == "play":
             try:
                 audio = self.audios[len(self.players)]
-                if getattr(audio, "channels", 1) == 1:
-                    io.play(list(audio), chunk_size=CHUNK)
+                nch = getattr(audio, "channels", 1)
+                kw = {} if nch == 1 else {"channels": nch}
+                if (len(self.players) + nch) % 2 == 0:
+                    # chunk_size left at its default, which "can be accessed (and changed) via chunks.size"
+                    sys.modules[type(io).__module__].chunks.size = CHUNK
+                    io.play(list(audio), **kw)
                 else:
-                    io.play(list(audio), chunk_size=CHUNK, channels=audio.channels)
+                    io.play(list(audio), chunk_size=CHUNK, **kw)
                 self.obs.append({"k": "ret-play", "t": 0, "n": 0})
             except RuntimeError:
                 self.obs.append({"k": "ret-play", "t": 0, "n": 1})
